@@ -164,12 +164,14 @@ def gen_pattern(rng, tree, absroot, targets=None, allow_real=True, allow_above=T
         for _ in range(n):
             i = rng.randrange(len(sel))
             sel[i] = _globify(rng, sel[i])
-    elif g < 0.6 and len(sel) > 1:
-        i = rng.randrange(len(sel))
-        j = rng.randint(i, len(sel) - 1)
-        sel[i:j + 1] = ['**']
-    elif g < 0.65:
-        sel = ['**'] + sel[-1:]
+    elif g < 0.64 and len(sel) > 2:
+        i = rng.randrange(len(sel) - 1)
+        j = rng.randint(i + 1, len(sel) - 1)
+        sel[i:j + 1] = ['**']                      # '**' has to span at least one separator
+    elif g < 0.64 and len(sel) > 1:
+        sel[rng.randrange(len(sel))] = '**'
+    elif g < 0.72:
+        sel = (sel[:1] if len(sel) > 2 and rng.random() < 0.5 else []) + ['**'] + sel[-1:]
     pat = '/'.join(sel)
     # near misses: cut into a component so that the match would not start after a separator
     m = rng.random()
